@@ -217,7 +217,7 @@ def run_case(A):
 
 KINDS = ("generic", "generic", "hessenberg", "upper", "lower", "hermitian", "skew_hermitian", "zero_col",
          "zero_subcol", "zero_subdiag", "block_tri", "low_rank", "near_hessenberg", "signed_perm",
-         "similar_to_hessenberg", "graded_cols", "graded_rows")
+         "similar_to_hessenberg", "graded_cols", "graded_rows", "nearly_hermitian", "nearly_structured", "block_diag")
 BASE_PATTERNS = ("generic", "generic", "int", "pure_imag", "axis", "sparse")
 
 
@@ -265,6 +265,28 @@ def reduction_cases(draw, tier):
         eps = draw(st.sampled_from([1e-16, 1e-13, 1e-10, 1e-6]))
         idx = _below(n, 1)
         A[idx] = A[idx] * eps
+    elif kind == "nearly_hermitian":
+        # Hermitian plus a small non-Hermitian part: any "is it Hermitian?" shortcut with a loose tolerance shows
+        B2, _ = draw(gen.qarray(n, n, "generic"))
+        A = gen.make_hermitian(A) + draw(st.sampled_from([1e-4, 1e-6, 1e-8, 1e-10])) * B2
+    elif kind == "nearly_structured":
+        # triangular / diagonal plus a tiny full perturbation: loose "already reduced" shortcuts show
+        B2, _ = draw(gen.qarray(n, n, "generic"))
+        T = A.copy()
+        if draw(st.booleans()):
+            T[_below(n, 0)] = 0.0
+        else:
+            T[_below(n, 0)] = 0.0
+            T[np.triu_indices(n, 1)] = 0.0
+        A = T + draw(st.sampled_from([1e-6, 1e-9, 1e-12])) * B2
+    elif kind == "block_diag":
+        # reducible input: several diagonal blocks, so whole columns are already reduced between active steps
+        cuts = sorted(set(draw(st.lists(st.integers(1, max(1, n - 1)), min_size=1, max_size=2))))
+        lo = 0
+        for c in cuts + [n]:
+            A[c:, lo:c] = 0.0
+            A[lo:c, c:] = 0.0
+            lo = c
     elif kind == "signed_perm":
         A = draw(gen.exact_unitary(n))
         if draw(st.booleans()):
